@@ -109,8 +109,8 @@ func TestCheck(t *testing.T) {
 	run := ev.Start(t, "C19", "exploration")
 	type job struct{ arg string }
 	var jobs []job
-	nPerm := run.Pick(2, 12)
-	nCfg := run.Pick(2, len(configs))
+	nPerm := run.Pick(6, 40)
+	nCfg := len(configs)
 	for c := 0; c < nCfg; c++ {
 		for p := 0; p < nPerm; p++ {
 			jobs = append(jobs, job{fmt.Sprintf("conformant:%d:%d", c, p)})
